@@ -5,9 +5,10 @@
 #include "tp/tp_common.h"
 
 enum { O_END = 0, O_CREATE, O_TCREATE0, O_TCREATE1, O_ATTACH, O_INFL_MSG, O_INFL_READ, O_INFL_TIMER,
-       O_SHUT, O_SHUT_B, O_SHUT_W, O_WAIT, O_DESTROY, O_QUIESCE, O_INFL_BUSY, O_GATE_B };
+       O_SHUT, O_SHUT_B, O_SHUT_W, O_WAIT, O_DESTROY, O_QUIESCE, O_INFL_BUSY, O_GATE_B, O_HOOK_WAITS };
 static const char *opname[] = { "end", "create", "threads_create(0)", "threads_create(skip_first)", "attach_first", "inflight:msg",
-       "inflight:read-event", "inflight:timer", "shutdown", "shutdown(concurrent thread B)", "shutdown(from worker)", "shutdown_wait", "destroy", "quiesce", "inflight:busy-callback", "open-gate(thread G)" };
+       "inflight:read-event", "inflight:timer", "shutdown", "shutdown(concurrent thread B)", "shutdown(from worker)", "shutdown_wait", "destroy", "quiesce", "inflight:busy-callback", "open-gate(thread G)",
+       "stop-hooks-call-shutdown_wait" };
 
 #define MAXOPS 12
 typedef struct lvar_s {
@@ -24,6 +25,21 @@ static tp_udata_t rd_udata, tm_udata;
 static int timer_armed = 0;
 static pthread_t thr_b;
 static int have_b = 0;
+
+/* a worker's stop hook that waits for the pool's threads itself ("waiting ... from one of its own threads"): the call must
+ * be refused (EDEADLK) and must not disturb the bookkeeping the outside waiter relies on */
+static int hook_waits = 0;
+static void
+c11_on_stop(tpt_p tpt) {
+	int rc;
+	tpc_on_stop(tpt);
+	if (hook_waits && (int)tpt_get_num(tpt) < tpc_W) {
+		rc = tp_shutdown_wait(tpt_get_tp(tpt));
+		sc_log("shutdown_wait from the stop hook of thread %d: rc=%d", (int)tpt_get_num(tpt), rc);
+		if (0 == rc)
+			sc_fail("wait-from-own-thread-succeeded", "tp_shutdown_wait() called from the stop hook of worker %d returned 0", (int)tpt_get_num(tpt));
+	}
+}
 
 static void
 infl_msg_cb(tpt_p tpt, void *udata) {
@@ -107,7 +123,7 @@ life_scenario(int idx) {
 			s.flags = 0;
 			s.threads_max = (size_t)v->W;
 			s.tpt_on_start = tpc_on_start;
-			s.tpt_on_stop = tpc_on_stop;
+			s.tpt_on_stop = c11_on_stop;
 			tpc_tp = NULL;
 			sc_fault_mask = v->faults;
 			create_rc = tp_create(&s, &tpc_tp);
@@ -199,6 +215,9 @@ life_scenario(int idx) {
 		case O_GATE_B:
 			pthread_create(&thr_g, NULL, gate_thread, NULL);
 			have_g = 1;
+			break;
+		case O_HOOK_WAITS:
+			hook_waits = 1;
 			break;
 		}
 	}
